@@ -30,7 +30,7 @@ BRANCHES = [
 class C11(Prop):
     id = "C11"
     title = "heart_beat runs once per interval per enabled object; faults stay local"
-    lean_modules = ["NV.C11.Props", "NV.C11.Witness", "NV.C11.Trace"]
+    lean_modules = ["NV.C11.Props", "NV.C11.Witness", "NV.C11.Trace", "NV.C11.Negative"]
     theorems = [
         "NV.C11.model_satisfies_spec",
         "NV.C11.hb_index_in_bounds",
@@ -145,6 +145,11 @@ class C11(Prop):
         mk("error-after-reenable", pop3 + ["script o3 hb:0 shb,o3,0;shb,o3,1;err", "tick", "do o0 hbs", "tick"])
         mk("error-stale-cursor", pop3 + ["script o2 hb:0 err", "tick", "do o0 shb,o3,0", "do o0 shb,o4,0", "do o0 clone,o5,0,1",
                                         "tick", "tick"])
+        # error_handler must clear current_heart_beat: a later unrelated error must not switch the object off again
+        mk("error-then-unrelated-top-level-error", pop3 + ["script o2 hb:0 err", "tick", "do o0 shb,o2,1", "do o3 err",
+                                                            "do o0 hbs", "do o0 q,o2", "tick", "tick"])
+        mk("error-then-unrelated-error-in-hook-free-destruct", pop3 + ["script o3 hb:1 err", "tick", "tick", "do o3 shb,o3,2",
+                                                                        "do o4 err", "do o2 err", "do o0 hbs", "tick", "tick"])
         mk("clone-in-round", pop3 + ["script o2 hb:0 clone,o5,0,1;clone,o6,0,2;hbs", "tick", "tick", "tick"])
         mk("clone-disables-blueprint", ["do o0 shb,o0,1", "do o0 q,o0", "tick", "do o0 clone,o2,0,1", "do o0 q,o0", "tick"])
         mk("blueprint-clone-in-own-beat", ["do o0 shb,o0,1", "do o0 clone,o2,0,1", "do o0 shb,o0,1",
@@ -180,6 +185,8 @@ class C11(Prop):
                                               "tick", "do o0 dest,o2", "do o0 hbs", "tick", "tick"])
         mk("item-with-heart-beat-destructed-by-driver", ["do o0 clone,o2,0,2", "do o0 clone,o3,0,1", "do o2 take,o3",
                                                           "script o3 md hbs", "tick", "do o0 dest,o2", "do o0 hbs", "tick"])
+        mk("item-destructs-its-carrier-in-own-beat", carrier + ["do o0 shb,o3,1", "script o3 md shb,o2,1;hbs",
+                                                                 "script o3 hb:0 dest,o2;hbs;q,o3", "tick", "do o0 hbs", "tick"])
         mk("take-refusals", ["do o0 clone,o2,0,1", "do o0 clone,o3,0,1", "do o0 clone,o4,0,1", "do o2 take,o3", "do o3 take,o4",
                              "do o4 take,o2", "do o2 take,o2", "do o2 take,o0", "do o2 take,o9", "do o4 take,o3",
                              "do o0 dest,o2", "do o4 take,o3", "tick"])
@@ -280,6 +287,11 @@ class C11(Prop):
         for _ in range(rng.range(3, 25)):
             if rng.chance(3, 5):
                 body.append("tick")
+                if rng.chance(1, 8):
+                    # after a (possibly aborted) round: re-enable somebody and raise an unrelated top-level error
+                    body.append("do o0 shb,o%d,1" % rng.choice(ids["all"]))
+                    body.append("do o%d err" % rng.choice(ids["all"]))
+                    body.append("do o0 hbs")
             else:
                 o = rng.choice(ids["all"])
                 for op in self.gen_ops(rng, ids, n=1):
